@@ -44,6 +44,8 @@ pub struct LoopContract {
 
 #[derive(Debug, Clone, Default)]
 pub struct ClosureContract {
+    /// locate the closure by a token substring of its body instead of by ordinal (robust against added/removed closures)
+    pub match_text: Option<String>,
     pub binder: Option<String>,
     pub requires: Vec<Clause>,
     pub ensures: Vec<Clause>,
@@ -188,6 +190,7 @@ pub fn parse_contracts(src: &str) -> Result<Contracts, String> {
                 let cc = fc.closures.entry(k).or_default();
                 match sub {
                     "binder" => cc.binder = Some(r.to_string()),
+                    "match" => cc.match_text = Some(r.split_whitespace().collect::<Vec<_>>().join("")),
                     "requires" | "ensures" => {
                         let (name, strength, expr) = split_named(r, ln)?;
                         let cl = Clause { name, text: expr, strength, src_line: ln };
